@@ -15,8 +15,25 @@ def cluster_key(formula, line):
     return "%s:%s" % (formula, e.get("ev"))
 
 
+def cluster_model(work, res, tier):
+    """design level: the 2-node Cluster model exhaustively (safety + liveness under fairness); 3 nodes by random walks"""
+    r = vlib.model_check(work, "Cluster", "Cluster_2n.cfg", workers=max(2, vlib.NCPU // 2))
+    res.add_model(r)
+    log("model Cluster_2n.cfg: %d states, %d transitions (safety, C03_Detected, C05_Converges under fairness)" %
+        (r["states"], r["transitions"]))
+    if tier == "thorough":
+        rc, out, wall = vlib.run_tlc(work, "Cluster", "Cluster_3n_sim.cfg", workers=vlib.NCPU, timeout=900,
+                                     extra=["-simulate", "num=20000", "-depth", "80", "-seed", str(vlib.SEED)])
+        if "is violated" in out or (rc != 0 and "Finished" not in out and "states" not in out):
+            raise Infra("Cluster_3n_sim failed:\n" + "\n".join(out.splitlines()[-25:]))
+        res.cov["models"].append({"module": "Cluster", "cfg": "Cluster_3n_sim.cfg", "mode": "simulate num=20000 depth=80",
+                                  "wall_s": round(wall, 1)})
+
+
 def sim_stage(work, res, prop, tier, prefixes, count, replay=None, model=True):
     binp = vlib.build_harness(work)
+    if model and not replay:
+        cluster_model(work, res, tier)
     d = work.sub("sim")
     plans = os.path.join(d, "plans.ndjson")
     if replay:
